@@ -229,6 +229,20 @@ func main() {
 			StaggerUs: vgen.Pick(fr, []int{0, 100, 1000, 5000}), WatchdogS: 60}})
 	}
 
+	// ---- RegisterCallback / Unregister in tight loops while SetMeterProvider runs (no logging in between) ----
+	regRace := func(fr *vgen.Rand, race bool) Scenario {
+		c := &RegRace{Seed: fr.U64(), Meters: fr.Range(1, 3), Registerers: fr.Range(3, 6), MinIter: 60, MaxIter: 160,
+			DelayUs: vgen.Pick(fr, []int{100, 300, 1000, 3000}), SlowUs: vgen.Pick(fr, []int{0, 100, 400}),
+			UnregEvery: vgen.Pick(fr, []int{0, 3, 7}), WatchdogS: 60}
+		if race { // the race detector slows everything down by an order of magnitude
+			c.MinIter, c.MaxIter, c.DelayUs = 40, 120, c.DelayUs*3
+		}
+		return Scenario{Kind: "regrace", RegRace: c}
+	}
+	for i := 0; i < o.Count(12, 120); i++ {
+		add("regrace", regRace(r.Fork(), false))
+	}
+
 	bin, _ := os.Executable()
 	outs := runAll(bin, scs, labels, false)
 
@@ -261,6 +275,10 @@ func main() {
 			for i := 0; i < o.Count(14, 60); i++ {
 				rs = append(rs, Scenario{Kind: "storm", Storm: raceStorm(rr.Fork(), i)})
 				rl = append(rl, "storm-race")
+			}
+			for i := 0; i < o.Count(10, 60); i++ {
+				rs = append(rs, regRace(rr.Fork(), true))
+				rl = append(rl, "regrace-race")
 			}
 			ro := runAll(rb, rs, rl, true)
 			outs = append(outs, ro...)
@@ -344,6 +362,8 @@ func judge(w *vgen.Writer, oc outcome) {
 		desc["flood"] = oc.sc.Flood
 	case "overlap":
 		desc["overlap"] = oc.sc.Overlap
+	case "regrace":
+		desc["regrace"] = oc.sc.RegRace
 	default:
 		desc["storm"] = oc.sc.Storm
 	}
